@@ -286,6 +286,7 @@ def run_impl(ctx, exe, cases, wd=15, workers=8, threads="2"):
 # ----------------------------------------------------------------------------- the model side
 HEAD_VARIANT = (1, 0, 1, 1)          # f6 f7 f12 f21: /repo HEAD with F12+F21 (F7 is a known finding)
 F7_SIG = "F7-eig-segment-N=d+skip"
+F26_SIG = "F26-covertree-all-coincident-overflow"
 SITE_FINDING = {105: "F7"}
 USES_NB = {"klle", "npe", "kltsa", "lltsa", "hlle", "la", "lpp", "isomap", "lisomap", "ms"}
 
@@ -385,6 +386,9 @@ def judge(ctx, c, real, model, build, stats):
         if cls == "crash" and model["cls"] == "crash" and SITE_FINDING.get(model["site"]) == "F7":
             sig = F7_SIG
             stats["f7_seen"] += 1
+        elif cls == "crash" and "covertree.hpp" in str(real.get("detail", "")) and \
+                "signed integer overflow" in str(real.get("detail", "")):
+            sig = F26_SIG              # all samples coincide + cover tree: `max_scale - 1` at INT_MIN
         ctx.violation(pub(c), "tapkee::embed %s [%s; model: %s]" % (what, where, model), signature=sig)
         return
     if cls == "ok":
